@@ -186,7 +186,12 @@ def step (st : St) (line : String) : St × String :=
       let show1 : Call → String
         | .str b => "s:" ++ hexOrDash b
         | .payload m raw => (if m then "m:" else "p:") ++ hexOrDash raw
-      (st, if r.2.2.isEmpty then "-" else " ".intercalate (r.2.2.map show1))
+      let showL := fun (cs : List Call) => if cs.isEmpty then "-" else " ".intercalate (cs.map show1)
+      -- calls made by getobj | by get_data() | by a second getobj with the cache off
+      let p1 := r.2.2.filter Call.isStr
+      let p2 := r.2.2.filter (fun c => ! c.isStr)
+      let r2 := getobjSt (tablePrims st.table) h false r.2.1 loc objid genno o
+      (st, showL p1 ++ " | " ++ showL p2 ++ " | " ++ showL (r2.2.2.filter Call.isStr))
     | _, _, _, _, _ => (st, "bad-op")
   | ["spec.enc", m, key, objid, genno, iv, data] =>
     match parseMethod m, bytesOfHex key, objid.toNat?, genno.toNat?, bytesOfHex iv, bytesOfHex data with
